@@ -496,6 +496,10 @@ converter.register_unstructure_hook({class_name}, _unstructure_{class_name.lower
 
                 # Sanitize the property name for use as a Python attribute
                 field_name = NameSanitizer.sanitize_method_name(prop_name)
+                # A field must not take the name of something the model module imports and uses in the class body:
+                # `date: date | None = None` rebinds `date`, the next `date`-typed field then evaluates `None | None`
+                if field_name in ("date", "field", "dataclass", "timedelta"):
+                    field_name += "_"
 
                 # Collision detection: check if this sanitized name was already used
                 if field_name in seen_field_names:
